@@ -14,7 +14,7 @@ RULE = ('random part: residue string over the 22 unambiguous-mass letters + X, J
         'labile}; non-trivial = a multiplier >= 2, or a non-residue placement, or average mode with a named/formula modification, '
         'or adducts, or negative charge')
 ASSUMPTIONS = [
-    'reference = pv/refchem.py (NIST literals, cross-checked against chem.txt in this run) + tabulated Unimod / monosaccharide masses read by pv/obo.py',
+    'reference = pv/refchem.py (NIST literals for 16 elements, the copy of the NIST table pinned in pv/pinned/nist.json for all others - never the table of the tree under test) + tabulated Unimod / monosaccharide masses read by pv/obo.py; in the exhaustive parts the monoisotopic mass of every Unimod entry and monosaccharide is also compared with its composition weighed with those NIST masses (average masses of the upstream tables are taken as given: they are built on other standard atomic weights)',
     'tolerances as stated by the property: 1e-5 Da monoisotopic, 2e-3 Da average (+ half a unit of the requested precision)',
     'two separate adduct brackets are not the documented form: a single comma-separated bracket is generated',
 ]
@@ -101,11 +101,13 @@ def check_case(case) -> Result:
         d = pt.mass(s, monoisotopic=mono, charge=0) - pt.mass(s0, monoisotopic=mono, charge=0)
         if abs(d - lab) > _tol(mono, None):
             r.fail('labile modifications are part of the precursor mass', 'C02/labile/not-in-precursor', expected=lab, got=d, **ctx)
-        if not q['unknown'] and not q['intervals']:
-            for ion in ('b', 'y'):
-                d = pt.mass(s, monoisotopic=mono, charge=1, ion_type=ion) - pt.mass(s0, monoisotopic=mono, charge=1, ion_type=ion)
-                if abs(d) > 1e-9:
-                    r.fail('labile modifications count for the precursor only', f'C02/labile/counted-for-{ion}-ion', got=d, **ctx)
+        z = case.get('labile_charge', 1)
+        for ion in ('n', 'a', 'b', 'c', 'x', 'y', 'z', 'ax', 'ay', 'az', 'bx', 'by', 'bz', 'cx', 'cy', 'cz', 'i'):
+            if ion == 'n':
+                continue  # the neutral peptide is the precursor without charge carriers
+            d = pt.mass(s, monoisotopic=mono, charge=z, ion_type=ion) - pt.mass(s0, monoisotopic=mono, charge=z, ion_type=ion)
+            if abs(d) > 1e-9:
+                r.fail('labile modifications count for the precursor only', f'C02/labile/counted-for-{ion}-ion', got=d, charge=z, **ctx)
     return r
 
 
@@ -157,7 +159,51 @@ def check_unimod_entry(case) -> Result:
             if abs(got - exp) > (1e-5 if mono else 2e-3):
                 r.fail('every Unimod entry weighs its tabulated mass wherever it is written',
                        f'C02/unimod-entry/{where}' + ('' if mono else '/average'), entry=name, sequence=s, expected=exp, got=got)
+    # the outside value: the entry's composition weighed with the NIST masses (monoisotopic; the average masses of the upstream
+    # table are built on other standard atomic weights and are taken as given)
+    if e['comp'] is not None:
+        try:
+            nist = refchem.comp_mass(e['comp'], True)
+        except KeyError:
+            nist = None
+        if nist is not None:
+            r.classes.append('composition-weighed')
+            got = pt.mass(forms['residue']) - base[True]
+            if abs(got - nist) > 1e-5:
+                r.fail('every Unimod entry agrees with a reference built from NIST atomic masses to within 1e-5',
+                       f'C02/unimod-entry/monoisotopic-mass-differs-from-NIST-composition/{e["name"]}', entry=e['name'], composition=e['comp'],
+                       expected=nist, got=got, tabulated=e['mono'], diff=got - nist)
     return r
+
+
+def check_sugar(case) -> Result:
+    """every bundled monosaccharide name and synonym: tabulated masses, and the composition weighed with NIST masses"""
+    import peptacular as pt
+    r = Result()
+    nm, cnt = case['name'], case['count']
+    r.nontrivial = True
+    r.classes = ['monosaccharide', f'count={cnt}']
+    e = [x for x in obo.monosaccharides() if nm == x['name'] or nm in x['synonyms']][0]
+    base = {m: refmass.neutral_mass(model.empty_pep('PEPTK'), m) for m in (True, False)}
+    nist = refchem.comp_mass(e['comp'], True) * cnt
+    for where, s in (('residue', f'PEPT[Glycan:{nm}{cnt}]K'), ('nterm', f'[Glycan:{nm}{cnt}]-PEPTK'), ('labile', '{Glycan:' + f'{nm}{cnt}' + '}PEPTK')):
+        for mono in (True, False):
+            got = pt.mass(s, monoisotopic=mono) - base[mono]
+            exp = (e['mono'] if mono else e['avg']) * cnt
+            if abs(got - exp) > (1e-5 if mono else 2e-3):
+                r.fail('a monosaccharide weighs its tabulated mass times its count', f'C02/monosaccharide/{where}' + ('' if mono else '/average'),
+                       sequence=s, expected=exp, got=got)
+            if mono and abs(got - nist) > 1e-5:
+                r.fail('monosaccharide masses agree with a reference built from NIST atomic masses to within 1e-5',
+                       f'C02/monosaccharide/monoisotopic-mass-differs-from-NIST-composition/{e["name"]}', sequence=s, expected=nist, got=got)
+    return r
+
+
+def sugar_cases():
+    for e in obo.monosaccharides():
+        for nm in [e['name']] + list(e['synonyms']):
+            for cnt in (1, 2, 5):
+                yield {'name': nm, 'count': cnt}
 
 
 def check_tables(case) -> Result:
@@ -175,15 +221,22 @@ def check_tables(case) -> Result:
         if abs(lib - refchem.atom_mass(sym)) > 1e-12:
             r.fail('particle masses', f'C02/table/particle/{sym}', library=lib, reference=refchem.atom_mass(sym))
         return r
-    m, a = refchem.mono_mass(sym), refchem.avg_mass(sym)
-    if abs(pt.chem_mass({sym: 1}) - m) > 1e-9:
-        r.fail('monoisotopic element mass', f'C02/table/mono/{sym}', library=pt.chem_mass({sym: 1}), reference=m)
-    if abs(pt.chem_mass({sym: 1}, monoisotopic=False) - a) > 1e-9:
-        r.fail('average element mass', f'C02/table/avg/{sym}', library=pt.chem_mass({sym: 1}, monoisotopic=False), reference=a)
-    for aa, mm, _ab in refchem.ISOTOPES[sym]:
+    rows = refchem.table()[sym]
+    tol = 1e-9 if sym in refchem.ISOTOPES else 1e-7
+    if any(ab > 0 for _a, _m, ab in rows):
+        m, a = refchem.mono_mass(sym), refchem.avg_mass(sym)
+        if abs(pt.chem_mass({sym: 1}) - m) > tol:
+            r.fail('monoisotopic element mass', f'C02/table/mono/{sym}', library=pt.chem_mass({sym: 1}), reference=m)
+        if abs(pt.chem_mass({sym: 1}, monoisotopic=False) - a) > tol:
+            r.fail('average element mass', f'C02/table/avg/{sym}', library=pt.chem_mass({sym: 1}, monoisotopic=False), reference=a)
+        # ... and as a modification written with a chemical formula
+        d = pt.mass(f'PEPT[Formula:{sym}2]K') - pt.mass('PEPTK')
+        if abs(d - 2 * m) > 1e-6:
+            r.fail('a formula modification weighs its atoms', f'C02/table/formula-mod/{sym}', got=d, expected=2 * m)
+    for aa, mm, _ab in rows:
         key = f'{aa}{sym}'
         got = pt.chem_mass({key: 1})
-        if abs(got - mm) > 1e-9:
+        if abs(got - mm) > tol:
             r.fail('isotope mass', f'C02/table/isotope/{key}', library=got, reference=mm)
     return r
 
@@ -223,7 +276,7 @@ def strategy():
             'isotope': draw(st.sampled_from([0, 0, 1, 2, 3, 4])),
             'loss': draw(st.one_of(st.just(0.0), st.just(0.0), st.floats(-500, 500, allow_nan=False), st.sampled_from([-18.01056, -17.02655]))),
             'precision': draw(st.one_of(st.none(), st.none(), st.integers(0, 6))),
-            'labile_probe': draw(st.booleans()),
+            'labile_probe': draw(st.booleans()), 'labile_charge': draw(st.sampled_from([1, 1, 2, 3, 0, -1])),
         }
     return strat()
 
@@ -234,15 +287,17 @@ def mod_strategy():
 
 def parts(tier):
     n = 6000 if tier == 'quick' else 300000
-    elements = sorted(refchem.ISOTOPES) + ['e', 'p', 'n']
+    elements = sorted(refchem.table()) + ['e', 'p', 'n']
     return [
         Part(name='tables', kind='enum', check_case=check_tables, cases=lambda: [{'symbol': s} for s in elements], shards=1,
-             exhaustive=True, space='16 elements with NIST literals + e/p/n: literal vs chem.txt vs library tables'),
+             exhaustive=True, space='all 118 elements of the NIST table (16 with literals in pv/refchem.py, the others from the copy pinned in pv/pinned/nist.json) + e/p/n: reference vs library tables, every isotope, and as Formula: modification'),
         Part(name='residues', kind='enum', check_case=check_residue, cases=lambda: [{'aa': a} for a in refchem.MASS_LETTERS], shards=1,
              exhaustive=True, space='24 residue letters x {mono, avg}'),
         Part(name='unimod-entries', kind='enum', check_case=check_unimod_entry,
              cases=lambda: [{'index': i} for i in range(len(obo.unimod()))], shards=16, exhaustive=True,
              space='all 1,522 Unimod entries x {mono, avg} x {residue, N-term, labile, static residue rule, static C-Term rule}'),
+        Part(name='monosaccharides', kind='enum', check_case=check_sugar, cases=sugar_cases, shards=4, exhaustive=True,
+             space='every bundled monosaccharide name and synonym x count {1,2,5} x {residue, N-term, labile} x {mono, avg}; monoisotopic also against the composition weighed with NIST masses'),
         Part(name='mass', kind='hyp', check_case=check_case, strategy=strategy, examples=n),
         Part(name='mod-mass', kind='hyp', check_case=check_mod_mass, strategy=mod_strategy, examples=n // 3),
     ]
